@@ -92,7 +92,22 @@ func C10_response_template() {
 			valid = false
 		}
 	case 7: // subprotocol
-		switch vChoose("proto", 3) {
+		switch vChoose("proto", 6) {
+		case 3: // a list is not "one it requested", whatever it contains
+			extra = append(extra, "Sec-WebSocket-Protocol: "+[]string{"other, chat", "chat, other", "chat,superchat", "chat, chat"}[vChoose("protolist", 4)])
+			valid = false
+		case 4: // one arbitrary byte of a requested name replaced
+			v := []byte("superchat")
+			i := vChoose("protopos", len(v))
+			c := vU8("protobyte")
+			vAssume(vAnd(c != '\r', vAnd(c != '\n', vAnd(c != ' ', c != '\t'))))
+			valid = vConcrete(vIte(c == v[i], 1, 0)) == 1
+			v[i] = c
+			extra = append(extra, "Sec-WebSocket-Protocol: "+string(v))
+			wantProto = "superchat"
+		case 5: // sent twice
+			extra = append(extra, "Sec-WebSocket-Protocol: chat", "Sec-WebSocket-Protocol: superchat")
+			determinate = false // two subprotocol headers: left open by the property
 		case 0:
 			extra = append(extra, "Sec-WebSocket-Protocol: superchat")
 			wantProto = "superchat"
